@@ -219,7 +219,8 @@ impl ThreadLocalCache {
     /// Allocate memory from thread-local cache
     fn allocate(&mut self, size: usize, config: &ThreadLocalPoolConfig) -> Result<NonNull<u8>> {
         // Try size class free list first
-        if let Some(list_index) = self.size_to_list_index(size) {
+        let list_index = self.size_to_list_index(size);
+        if let Some(list_index) = list_index {
             if let Some(ptr) = self.free_lists[list_index].pop() {
                 if let Some(stats) = &self.stats {
                     stats.cache_hits.fetch_add(1, Ordering::Relaxed);
@@ -227,6 +228,10 @@ impl ThreadLocalCache {
                 return Ok(ptr);
             }
         }
+
+        // deallocate() files a block under its size class, from where it is handed
+        // out for any request of that class: carve the full class size, not the request.
+        let size = list_index.map_or(size, |index| TLS_SIZE_CLASSES[index]);
 
         // Try hot area allocation
         if let Some(ref mut hot_area) = self.hot_area {
